@@ -170,7 +170,11 @@ func VerifH_C16_slice_write() {
 		var v Value
 		var err error
 		kind, _ := verifCatch(func() {
-			vm.Run("try { Object.defineProperty(sl, '0', {get: function () { return 1 }}) } catch (e) {} try { Object.defineProperty(sl, 'length', {set: function () {}}) } catch (e) {} try { Object.defineProperty(ar, '1', {get: function () {}}) } catch (e) {} try { sl.length = {valueOf: function () { throw x }} } catch (e) {}")
+			// (no try/catch in the script: otto's catch would swallow a Go panic)
+			vm.Run("Object.defineProperty(sl, '0', {get: function () { return 1 }})")
+			vm.Run("Object.defineProperty(sl, 'length', {set: function () {}})")
+			vm.Run("Object.defineProperty(ar, '1', {get: function () {}})")
+			vm.Run("sl.length = {valueOf: function () { throw x }}")
 			v, err = vm.Run("sl.tag = x; [delete sl.tag, 'tag' in sl, delete sl.nope, delete ar.nope, delete sl[i], sl.length, delete sl.length, delete ar[0]].join()")
 		})
 		verifCover("reached")
